@@ -94,3 +94,60 @@ Lemma frame_other_key_l : forall scripts sched t s' th o g k,
   (forall c, c < nextc s -> (cgrp (heap s c), ckey (heap s c)) = (g, k) -> heap s' c = heap s c) /\
   (g = GRM -> resources s' k = resources s k /\ ncreated s' k = ncreated s k).
 Proof. intros. eapply step_frame_other_key; eauto. apply exec_inv. Qed.
+
+(* ------------------------------------------------------------------ *)
+(* No lost wake-up.  Once the call a thread waits for is done, the waiter can move, and this stays so
+   whatever the OTHER threads do - any number of steps, on any keys, its own key included - until the
+   waiter itself is scheduled.  (A wake-up channel shared between keys breaks exactly this:
+   Pinned.shared_cond_signal_strands_waiter_refuted.) *)
+Lemma step_done_mono s t' s' c :
+  step s t' = Some s' -> c < nextc s -> cdone (heap s c) = true ->
+  cdone (heap s' c) = true.
+Proof.
+  intros H Hc Hd. unfold step in H.
+  destruct (nth_error (threads s) t') as [th|]; [|discriminate].
+  destruct (cur_op th) as [o|]; [|discriminate].
+  destruct (tpc th);
+    repeat match type of H with
+           | context [match ?x with _ => _ end] => destruct x eqn:?
+           | context [if ?x then _ else _] => destruct x eqn:?
+           end;
+    inversion H; subst s'; cbn; try exact Hd;
+    match goal with
+    | |- cdone (fupd _ ?k _ c) = true =>
+      destruct (Nat.eq_dec c k) as [->|Hne];
+      [rewrite fupd_eq; cbn; first [exact Hd | reflexivity | lia] | rewrite fupd_neq by exact Hne; exact Hd]
+    end.
+Qed.
+
+Lemma released_stays s more t th o c :
+  Inv s -> nth_error (threads s) t = Some th -> cur_op th = Some o ->
+  tpc th = PWait c -> cdone (heap s c) = true -> ~ In t more ->
+  let s2 := run step s more in
+  nth_error (threads s2) t = Some th /\ enabled s2 t = true.
+Proof.
+  revert s. induction more as [|t' r IH]; intros s HI Ht Ho Hp Hd Hn; cbn.
+  - split; [exact Ht|].
+    destruct (enabled s t) eqn:E; [reflexivity|]. exfalso.
+    destruct (blocked_behind_own_key s t th o HI Ht Ho E) as (c' & P1 & _ & _ & _ & P5 & _).
+    rewrite Hp in P1. inversion P1; subst c'. congruence.
+  - assert (Hne : t <> t') by (intros ->; apply Hn; left; reflexivity).
+    assert (Hn' : ~ In t r) by (intros X; apply Hn; right; exact X).
+    destruct (step s t') as [s'|] eqn:Es; [|apply IH; auto].
+    apply IH; auto.
+    + eapply step_inv; eauto.
+    + rewrite (step_threads_other _ _ _ _ Es Hne). exact Ht.
+    + pose proof (pc_known s t th o HI Ht Ho) as P. unfold pc_ok in P. rewrite Hp in P.
+      destruct P as (A1 & _). eapply step_done_mono; eauto.
+Qed.
+
+Lemma released_waiter_stays_enabled_l : forall scripts sched more t th o c,
+  let s := exec scripts sched in
+  nth_error (threads s) t = Some th -> cur_op th = Some o ->
+  tpc th = PWait c -> cdone (heap s c) = true -> ~ In t more ->
+  let s2 := exec scripts (sched ++ more) in
+  nth_error (threads s2) t = Some th /\ enabled s2 t = true.
+Proof.
+  intros scripts sched more t th o c s Ht Ho Hp Hd Hn. cbn zeta. unfold exec. rewrite run_app.
+  eapply released_stays; eauto. apply exec_inv.
+Qed.
